@@ -328,4 +328,69 @@ theorem rule_roundtrip (cfg : KCfg) (r : ARule) (H : RuleOK cfg r) :
         (mDrop (pairsOf (userOpts r) [])) (mDrop (pairsOf (kernelOpts cfg r) []))
       rw [← this, h]; exact hn
 
+/-! ### no key of a parsed and normalised rule is the empty string -/
+
+theorem keys_normalize (p : Pairs) (k : Str) (h : k ∈ keysA (normalize p)) : k ∈ keysA p ∨ k = kMark := by
+  obtain ⟨v, hv⟩ := (hasA_iff k _).mp ((mem_keysA k _).mp h)
+  rw [getA_normalize] at hv
+  by_cases hk : k = kMark
+  · right; exact hk
+  · left
+    apply (mem_keysA k p).mpr
+    apply (hasA_iff k p).mpr
+    cases hx : xConv p with
+    | none =>
+      simp only [hx] at hv
+      by_cases hd : k = kM ∧ mDrop p = true
+      · simp [hd] at hv
+      · rw [if_neg hd] at hv
+        cases hg : getA k p with
+        | none => simp [hg] at hv
+        | some w => exact ⟨w, rfl⟩
+    | some xv =>
+      simp only [hx, if_neg hk] at hv
+      by_cases h2 : k = kXmark
+      · simp [h2] at hv
+      · rw [if_neg h2] at hv
+        by_cases hd : k = kM ∧ mDrop p = true
+        · simp [hd] at hv
+        · rw [if_neg hd] at hv
+          cases hg : getA k p with
+          | none => simp [hg] at hv
+          | some w => exact ⟨w, rfl⟩
+
+theorem pkv_key_ne_nil (o : OptW) (h : OptOK o) : (pkv o).1 ≠ [] := by
+  unfold pkv fixSyn
+  split
+  · show s "--syn" ≠ []; decide
+  · intro e
+    have := h.1
+    simp only at e
+    rw [e] at this
+    simp [startsWithDash] at this
+
+theorem pairsOf_keys (l : List OptW) (acc : Pairs) (k : Str) (h : k ∈ keysA (pairsOf l acc)) :
+    k ∈ keysA acc ∨ ∃ o ∈ l, (pkv o).1 = k := by
+  induction l generalizing acc with
+  | nil => left; exact h
+  | cons o os ih =>
+    simp only [pairsOf, List.foldl_cons] at ih h
+    rcases ih _ h with h1 | ⟨o', ho', hk⟩
+    · obtain ⟨v, hv⟩ := (hasA_iff k _).mp ((mem_keysA k _).mp h1)
+      rw [getA_setA] at hv
+      by_cases he : (pkv o).1 = k
+      · right; exact ⟨o, by simp, he⟩
+      · left
+        rw [if_neg he] at hv
+        exact (mem_keysA k acc).mpr ((hasA_iff k acc).mpr ⟨v, hv⟩)
+    · right; exact ⟨o', by simp [ho'], hk⟩
+
+theorem normalize_pairsOf_NE (l : List OptW) (h : ∀ o ∈ l, OptOK o) : NEPairs (normalize (pairsOf l [])) := by
+  intro hm
+  rcases keys_normalize _ _ hm with h1 | h1
+  · rcases pairsOf_keys l [] [] h1 with h2 | ⟨o, ho, hk⟩
+    · simp [keysA] at h2
+    · exact pkv_key_ne_nil o (h o ho) hk
+  · exact absurd h1 (by decide)
+
 end NA.C05
